@@ -305,12 +305,18 @@ impl<C: Config, Q: Query> Snapshot<C, Q> {
             let callee_node_info =
                 unsafe { engine.get_node_info_unchecked(callee).await };
 
+            // A callee that was registered but never observed has no
+            // recorded fingerprints: the previous execution of this query was
+            // cut short at that callee by a dependency cycle. There is
+            // nothing to compare against, so the query has to be executed
+            // again (which detects the cycle again if it still exists).
+            let Some(observation) = forward_edge_observation.0.get(callee)
+            else {
+                return CalleeCheckDecision::Recompute;
+            };
+
             let value_fingerprint_diff = callee_node_info.value_fingerprint()
-                != forward_edge_observation
-                    .0
-                    .get(callee)
-                    .unwrap()
-                    .seen_value_fingerprint;
+                != observation.seen_value_fingerprint;
 
             // if any of the callee's value fingerprint differs, we need to
             // recompute
@@ -322,11 +328,7 @@ impl<C: Config, Q: Query> Snapshot<C, Q> {
             if !kind.is_firewall() {
                 let tfc_fingerprint_diff = callee_node_info
                     .transitive_firewall_callees_fingerprint()
-                    != forward_edge_observation
-                        .0
-                        .get(callee)
-                        .unwrap()
-                        .seen_transitive_firewall_callees_fingerprint;
+                    != observation.seen_transitive_firewall_callees_fingerprint;
 
                 if tfc_fingerprint_diff {
                     repair_transitive_firewall_callees = true;
